@@ -181,9 +181,10 @@ def gen_workload(rng, tier):
         from iodata.api import FORMAT_MODULES
 
         req = list(getattr(FORMAT_MODULES[fmt], op).required)
-        k = rng.randint(1, len(req))
+        # every required attribute alone (most often), and arbitrary subsets
+        k = 1 if rng.random() < 0.6 else rng.randint(1, len(req))
         attrs_ = sorted(rng.sample(req, k))
-        w["defect"] = {"cls": "none_attrs", "attrs": attrs_, "frame": rng.randrange(len(objs))}
+        w["defect"] = {"cls": "none_attrs", "attrs": attrs_, "frame": 0 if rng.random() < 0.5 else rng.randrange(len(objs))}
     elif objs and r < 0.55 and op == "dump_one":
         classes = [c for c, (_m, fmts, _cv) in sorted(INCOMPAT.items()) if fmt in fmts]
         if classes:
@@ -192,7 +193,7 @@ def gen_workload(rng, tier):
 
 
 def plan(tier, seed, args):
-    n = args.runs or (420 if tier == "quick" else 2600)
+    n = args.runs or (2400 if tier == "quick" else 24000)
     tasks = []
     for i in range(n):
         tasks.append({"run": i, "seed": seed, "tier": tier})
